@@ -52,6 +52,8 @@ DynTemplates ==
     \* two labels (one from the iterator, one constant), for the two-label map / object specs
     \cup {DDyn("q", "", c, <<IV("q", "key"), StrLit("w")>>, b) : c \in {NVar("m"), NVar("ls")},
                                                                   b \in {<<DAttr("a", IV("q", "value"))>>, <<>>}}
+    \* ... and two constant labels (still well defined when the for_each collection is unknown)
+    \cup {DDyn("q", "", c, <<StrLit("x"), StrLit("w")>>, <<DAttr("a", IV("q", "value"))>>) : c \in {NVar("m"), NVar("ls")}}
 
 NestedTemplates ==
     {DDyn("p", "it", c, <<>>, b) : c \in {NVar("l"), NVar("m")}, b \in NestedContent("it")}
